@@ -246,7 +246,10 @@ def gen(t, tier):
           # method (only the first has a __name__)
           'callable': t.pick(['function', 'function', 'function', 'partial', 'object', 'method']),
           # threads may also be switched between two statements of async_.py (line events), not only at queue operations
-          'linepreempt': t.pick([None, None, None, None, 4, 15])}
+          'linepreempt': t.pick([None, None, None, None, 4, 15]),
+          # every failing item raises the very same exception object (a memoised upstream failure, one failed future that
+          # several items wait for)
+          'shared_exc': bool(t.chance(0.15))}
     if api.startswith('pool.') and t.chance(0.3):
         # the same pool object is used for a second call (after the first one returned or raised)
         m = t.randint(2, 5)
@@ -362,7 +365,9 @@ def run(sc, tape):
     def setup_round(r):
         items = rounds[r]
         n = len(items)
-        state.update({'items': items, 'n': n, 'excs': [ItemError('round %d item %d failed' % (r, i)) for i in range(n)],
+        shared_ = ItemError('round %d: the shared failure' % r)
+        state.update({'items': items, 'n': n,
+                      'excs': [shared_ if sc.get('shared_exc') else ItemError('round %d item %d failed' % (r, i)) for i in range(n)],
                       'values': [None if items[i].get('none') else ('value', r, i, 1000 + i) for i in range(n)],
                       'executed': [0] * n, 'finish_order': []})
 
